@@ -274,3 +274,182 @@ Theorem C05_sha_ctx_add_app : forall m1 m2, N.of_nat (length (m1 ++ m2)) < MAX_C
   end.
 Proof. exact ctx_add_app. Qed.
 Print Assumptions C05_sha_ctx_add_app.
+
+(* 10. the secp256k1 point jets (Jets/JetSpecSecp.v: affine and Jacobian points with the exact
+   representatives of libsecp256k1, secp256k1_ecmult, swu, hash_to_curve) and the two signature jets
+   (Jets/JetSpecSecpSig.v: BIP-340 verification; with them all 368 Core jets are specified): the dispatcher extended with them respects the jets' types and changes nothing on the
+   other jets; the field operations of the specifications are the arithmetic of the integers modulo
+   p = 2^256 - 2^32 - 977 on canonical representatives (what read_fe / write_fe of jets-secp256k1.c
+   normalise to), the point operations return canonical coordinates *)
+From RS Require Import Jets.JetSpecSecp Jets.JetSpecSecpSig Jets.JetSpecAll3 Jets.JetSpecSecpProofs.
+
+Theorem C05_jet_spec3_typed : jets_typed jet_spec3_ty jet_spec3.
+Proof. exact jet_spec3_typed. Qed.
+Print Assumptions C05_jet_spec3_typed.
+
+Theorem C05_jet_spec3_conservative : forall j a, find_g ec_table3 j = None ->
+  jet_spec3 j a = jet_spec2 j a /\ jet_spec3_ty j = jet_spec2_ty j.
+Proof. exact jet_spec3_old. Qed.
+Print Assumptions C05_jet_spec3_conservative.
+
+Theorem C05_ec_table_disjoint :
+  forallb (fun g => match find_g ec_table3 (g_id g) with None => true | Some _ => false end) gtable = true /\
+  forallb (fun s => match find_g ec_table3 (j_id s) with None => true | Some _ => false end) jet_table = true.
+Proof. exact ec_table_disjoint. Qed.
+Print Assumptions C05_ec_table_disjoint.
+
+(* reading: a 256-bit word is reduced modulo p *)
+Theorem C05_secp_rd_fe : forall v, has_ty v (word_ty 8) = true ->
+  rd_fe v = (word_num 8 v) mod FE_P /\ rd_fe v < FE_P.
+Proof. exact rd_fe_spec. Qed.
+Print Assumptions C05_secp_rd_fe.
+
+(* the fast reduction (folding 2^256 = 2^32 + 977) is the remainder modulo p *)
+Theorem C05_secp_red : forall x, x < P256 * P256 -> red x = x mod FE_P.
+Proof. exact red_spec. Qed.
+Print Assumptions C05_secp_red.
+
+Theorem C05_secp_field_ops : forall a b, a < FE_P -> b < FE_P ->
+  fmul a b = (a * b) mod FE_P /\ fsqr a = (a * a) mod FE_P /\ fadd a b = (a + b) mod FE_P /\
+  fneg a = (FE_P - a) mod FE_P /\ fadd a (fneg a) = 0 /\
+  (fhalf a < FE_P /\ (2 * fhalf a) mod FE_P = a).
+Proof.
+  intros a b Ha Hb.
+  exact (conj (fmul_spec a b Ha Hb) (conj (fsqr_spec a Ha) (conj (fadd_spec a b Ha Hb)
+        (conj (fneg_spec a Ha) (conj (fneg_inverse a Ha) (fhalf_spec a Ha)))))).
+Qed.
+Print Assumptions C05_secp_field_ops.
+
+(* inversion and square root are exponentiations modulo p (by p - 2 and (p + 1) / 4); a reported
+   square root is one.  That a^(p-2) inverts a is Fermat's theorem for p, not proved here
+   (finv_statement, tested by the correspondence with the C jets) *)
+Theorem C05_secp_pow : forall a e, a < FE_P ->
+  fpow a e = (a ^ e) mod FE_P /\ finv a = (a ^ (FE_P - 2)) mod FE_P.
+Proof. intros a e Ha. exact (conj (fpow_spec a e Ha) (finv_spec a Ha)). Qed.
+Print Assumptions C05_secp_pow.
+
+Theorem C05_secp_sqrt_sound : forall a r, a < FE_P -> fsqrt a = (r, true) -> r < FE_P /\ (r * r) mod FE_P = a.
+Proof. exact fsqrt_sound. Qed.
+Print Assumptions C05_secp_sqrt_sound.
+
+(* canonical coordinates in, canonical coordinates out: doubling, the three additions
+   (gej_add_var; gej_add_ge_var / gej_add_zinv_var with the z ratio they report), rescaling, normalisation *)
+Theorem C05_secp_points_canonical : forall a b c zs s, gej_ok a -> gej_ok b -> ge_ok c -> zs < FE_P -> s < FE_P ->
+  (gej_ok (fst (gej_dbl a)) /\ snd (gej_dbl a) < FE_P) /\
+  gej_ok (gej_add a b) /\
+  (gej_ok (fst (gej_add_ge_z zs a c)) /\ snd (gej_add_ge_z zs a c) < FE_P) /\
+  gej_ok (gej_rescale a s) /\ ge_ok (gej_affine a).
+Proof.
+  intros a b c zs s Ha Hb Hc Hz Hs.
+  exact (conj (gej_dbl_ok a Ha) (conj (gej_add_ok a b Ha Hb) (conj (gej_add_ge_z_ok zs a c Hz Ha Hc)
+        (conj (gej_rescale_ok a s Ha Hs) (gej_affine_ok a Ha))))).
+Qed.
+Print Assumptions C05_secp_points_canonical.
+
+(* computed facts: G is on the curve, has order n, the endomorphism, ecmult against repeated addition,
+   the verification equation, decompression, swu lands on the curve; and through the dispatcher *)
+Theorem C05_secp_examples :
+  ge_on_curve G = true /\
+  ecmult gej_inf 0 1 = Gj /\
+  is_inf (ecmult Gj (SC_N - 1) 1) = true /\
+  gej_affine (ecmult Gj (SC_N - 1) 0) = ge_neg G /\
+  gej_affine (ecmult Gj SC_LAMBDA 0) = (fmul FE_BETA G_X, G_Y) /\
+  gej_affine (ecmult gej_inf 0 5) = gej_affine (fst (gej_add_ge (fst (gej_dbl (fst (gej_dbl Gj)))) G)) /\
+  gej_equiv (ecmult (ecmult gej_inf 0 3) 2 4) (ecmult gej_inf 0 10) = true /\
+  verify_sum G 2 3 (gej_affine (ecmult gej_inf 0 5)) = true /\
+  verify_sum G 2 3 (gej_affine (ecmult gej_inf 0 6)) = false /\
+  lift_x G_X (N.odd G_Y) = Some G /\ lift_x G_X (negb (N.odd G_Y)) = Some (ge_neg G) /\
+  lift_x 5 true = None /\
+  ge_on_curve (swu 1) = true /\ ge_on_curve (swu 2) = true /\ swu (FE_P - 1) = ge_neg (swu 1) /\
+  fmul 2 (finv 2) = 1 /\ finv 0 = 0.
+Proof. exact secp_examples. Qed.
+Print Assumptions C05_secp_examples.
+
+Theorem C05_secp_g128 : gej_affine (Nat.iter 128 (fun a => fst (gej_dbl a)) Gj) = (G128_X, G128_Y).
+Proof. exact g128_ok. Qed.
+Print Assumptions C05_secp_g128.
+
+Theorem C05_secp_jet_examples :
+  let g := wr_gej Gj in
+  let ng := wr_gej (gej_neg Gj) in
+  let inf := wr_gej gej_inf in
+  gspec_sem ec_table 117 (SP g ng) = Some (Some inf) /\
+  gspec_sem ec_table 117 (SP g g) = gspec_sem ec_table 118 g /\
+  gspec_sem ec_table 117 (SP inf g) = Some (Some g) /\
+  gspec_sem ec_table 117 (SP g inf) = Some (Some g) /\
+  gspec_sem ec_table 119 (SP g g) = Some (Some (wr_bit true)) /\
+  gspec_sem ec_table 119 (SP g ng) = Some (Some (wr_bit false)) /\
+  gspec_sem ec_table 124 inf = Some (Some (wr_bit true)) /\
+  gspec_sem ec_table 127 inf = Some (Some (SL SU)) /\
+  gspec_sem ec_table 127 (wr_gej (gej_rescale Gj 12345)) = Some (Some (SR (wr_ge G))) /\
+  gspec_sem ec_table 330 (SP (wr_fe 1) (wr_gej (mkGej 1 2 3))) = Some None.
+Proof. exact secp_jet_examples. Qed.
+Print Assumptions C05_secp_jet_examples.
+
+(* 11. the group formulas stay on the curve y^2 = x^3 + 7 z^6 (Jets/JetSpecSecpCurve.v: the field operations
+   translated to the integers modulo p, the polynomial identities by ring): doubling (gej_double, every branch),
+   addition (gej_add: either operand the point at infinity, equal points, opposite points, the general case),
+   mixed addition (gej_ge_add / gej_ge_add_ex), negation, rescaling; decompression returns a point of the
+   curve with the given abscissa and, unless y = 0, the given parity.  Satisfiable: G (C05_secp_examples) *)
+From RS Require Import Jets.JetSpecSecpCurve.
+
+Theorem C05_secp_double_on_curve : forall a, gej_ok a -> gej_on_curve a = true ->
+  gej_on_curve (fst (gej_dbl a)) = true.
+Proof. exact gej_dbl_on_curve. Qed.
+Print Assumptions C05_secp_double_on_curve.
+
+Theorem C05_secp_add_on_curve : forall a b, gej_ok a -> gej_ok b ->
+  gej_on_curve a = true -> gej_on_curve b = true -> gej_on_curve (gej_add a b) = true.
+Proof. exact gej_add_on_curve. Qed.
+Print Assumptions C05_secp_add_on_curve.
+
+Theorem C05_secp_add_ge_on_curve : forall a b, gej_ok a -> ge_ok b ->
+  gej_on_curve a = true -> ge_on_curve b = true -> gej_on_curve (fst (gej_add_ge a b)) = true.
+Proof. exact gej_add_ge_on_curve. Qed.
+Print Assumptions C05_secp_add_ge_on_curve.
+
+Theorem C05_secp_neg_rescale_on_curve : forall a s, gej_ok a -> s < FE_P -> gej_on_curve a = true ->
+  gej_on_curve (gej_neg a) = true /\ gej_on_curve (gej_rescale a s) = true.
+Proof. intros a s Ha Hs Hc. exact (conj (gej_neg_on_curve a Ha Hc) (gej_rescale_on_curve a s Ha Hs Hc)). Qed.
+Print Assumptions C05_secp_neg_rescale_on_curve.
+
+Theorem C05_secp_decompress_sound : forall x o q, x < FE_P -> lift_x x o = Some q ->
+  ge_ok q /\ ge_on_curve q = true /\ fst q = x /\ (snd q <> 0 -> N.odd (snd q) = o).
+Proof. exact lift_x_sound. Qed.
+Print Assumptions C05_secp_decompress_sound.
+
+(* 12. the scalar recodings of secp256k1_ecmult: the endomorphism split represents the scalar
+   (k = r1 + r2 * lambda modulo the group order); the wNAF digits of its parts and of the two 128-bit
+   halves used for G are odd or zero, below 2^(w-1) in absolute value, 129 of them, and sum back to the
+   (signed) scalar - computed on 20 scalars including 0, n - 1, lambda and 2^128 boundaries *)
+Theorem C05_secp_split_lambda : forall k, k < SC_N ->
+  let '(r1, r2) := split_lambda k in
+  r1 < SC_N /\ r2 < SC_N /\ (r1 + r2 * SC_LAMBDA) mod SC_N = k.
+Proof. exact split_lambda_spec. Qed.
+Print Assumptions C05_secp_split_lambda.
+
+Theorem C05_secp_wnaf_examples :
+  forallb wnaf_check
+    [0; 1; 2; 15; 16; 31; 2 ^ 128 - 1; 2 ^ 128; 2 ^ 255; SC_N - 1; SC_N - 2; SC_LAMBDA; SC_N - SC_LAMBDA; SC_N / 2; SC_N / 3;
+     55066263022277343669578718895168534326250603453777594175500187360389116729240;
+     32670510020758816978083085130507043184471273380659243275938904335757337482424;
+     2 ^ 200 + 2 ^ 100 + 2 ^ 14; 2 ^ 129 - 1; 2 ^ 143 - 2 ^ 15] = true.
+Proof. exact wnaf_examples. Qed.
+Print Assumptions C05_secp_wnaf_examples.
+
+(* 13. the signature jets (Jets/JetSpecSecpSig.v): the tags hash to the midstates the C code starts from
+   (BIP0340/challenge in schnorrsig_impl.h, signatureIV in precomputed.h); test vector 0 of BIP-340 verifies,
+   and does not once a message bit is flipped *)
+Theorem C05_secp_sig_tag_midstates :
+  Sha256.sha_hash_tag (ascii CHALLENGE_TAG) =
+    Sha256.state_of_bytes (bytes_of_bits 32 (bits_be 256 0x9cecba112392538111679112d1627e0f97c87550003cc76590f6116433e9b66a)) /\
+  Sha256.sha_hash_tag (ascii SIGNATURE_TAG) =
+    Sha256.state_of_bytes (bytes_of_bits 32 (bits_be 256 0xedebc74b774c1bb2cb6be27e38d63c826f0c6ee602399eb6483bde91270a1b9b)).
+Proof. exact tag_midstates. Qed.
+Print Assumptions C05_secp_sig_tag_midstates.
+
+Theorem C05_secp_bip340_vector_0 :
+  bip340_verify BIP340_PK0 (repeat 0 32) BIP340_R0 BIP340_S0 = true /\
+  bip340_verify BIP340_PK0 (128 :: repeat 0 31) BIP340_R0 BIP340_S0 = false.
+Proof. exact bip340_vector_0. Qed.
+Print Assumptions C05_secp_bip340_vector_0.
